@@ -38,6 +38,12 @@ ASSUMPTIONS = [
     "muscle activations are kept in [0,1] (doc modeling/Muscles: act is the state of a filter driven by ctrl clamped to [0,1])",
     "a NaN control is only required to leave finite forces and raise the bad-ctrl warning (no documented value)",
     "tolerance 1e-9 relative to the magnitude of the summed terms; FD clause 1e-5 relative",
+    "muscle active force-length curve: the 0.15 secondary bump exists only in the plot script doc/_static/FLV.m (no prose, no "
+    "attribute documents it), so both FLV.m's double bump and the single bump are accepted; a single-bump match is counted as "
+    "out_of_scope:muscle-active-length-curve-lacks-secondary-bump-of-FLV.m. The passive curve is NOT relaxed: muscle/fpmax "
+    "states its value at lmax",
+    "whether a documented configuration compiles at all (pid with ki and slewmax together) is not a clause of the statement: "
+    "the fixed probe only feeds counters out_of_scope:documented-pid-slew-plus-integral-*",
 ]
 
 RTOL = 1e-9
@@ -677,10 +683,17 @@ def check_state(L, m, d, I, T, rng, P, witness, do_fd, do_step):
                           clamped_ctrl=u[ua:ua + un], act=act[aa:aa + an], length=lref[o:o + no], velocity=vref[o:o + no], actearly=int(I.actearly[i]),
                           wrap_period=I.wrap_period(i))
             if variants:
-                hit = [k for k, val in variants.items() if abs(float(clampf([val])[0]) - fi[0]) <= RTOL * 10 * sc[0]]
+                # first match in the fixed order FL-only, FP-only, both (each an exact alternative formula, no tolerance band)
+                hit = [k for k in ("FL-single-bump", "FP-half-quadratic", "FL-single-bump+FP-half-quadratic")
+                       if abs(float(clampf([variants[k]])[0]) - fi[0]) <= RTOL * 10 * sc[0]]
                 if hit:
                     P.count("muscle_deviation:" + hit[0])
-                    viol("muscle-force-curve-differs-from-documented-FLV.m:" + hit[0], **detail)
+                    if "FL-single-bump" in hit[0]:
+                        # active length curve without the 0.15 secondary bump of doc/_static/FLV.m: the only source is a
+                        # MATLAB plot script ("documentation too thin"), so the single-bump curve is tolerated and counted
+                        P.count("out_of_scope:muscle-active-length-curve-lacks-secondary-bump-of-FLV.m")
+                    if "FP-half-quadratic" in hit[0]:
+                        viol(MUSCLE_FP_SIGNATURE, **dict(detail, variant=hit[0]))
                     continue
             # would the unclamped control reproduce the engine's value? (clamping skipped / applied after the gain)
             viol("actuator_force-differs-from-documented-law:" + fam, **detail)
@@ -867,6 +880,11 @@ def worker(c):
     return P.result()
 
 
+# passive muscle force: XMLreference muscle/fpmax "Passive force generated at lmax, relative to the peak rest force" (and FLV.m:
+# 0.25*fpmax*(1+3x), = fpmax at lmax); mju_muscleBias returns fpmax*(0.5+x), = 1.5*fpmax at lmax. Exact signature, no wildcard:
+# it is raised only when the engine value equals the half-quadratic/linear alternative formula to 1e-8 relative.
+MUSCLE_FP_SIGNATURE = "muscle-passive-force-at-lmax-is-1.5-fpmax-instead-of-documented-fpmax:half-quadratic-passive-curve"
+
 KINDSETS = [None, ["general"], ["position", "intvelocity", "velocity"], ["muscle", "cylinder", "damper"], ["general", "motor", "muscle"]]
 
 
@@ -906,13 +924,14 @@ def probes(ctx):
                       {"xml": PROBE_TENDON, "ctrl": 5.0, "actuator_force": float(d["actuator_force"][0]), "actuatorfrcrange": [-1, 2],
                        "tendon_actfrclimited": int(m["tendon_actfrclimited"][0]), "probe": "tendon"})
     # pid with slew limiting and integral action: documented to carry the activation states [slew, integral]
-    ctx.case("probe:pid-slew-plus-integral", nontrivial=True)
+    ctx.case("probe:pid-slew-plus-integral", nontrivial=False)
     try:
         m = L.load_xml_string(PROBE_PID)
         if m.n("na") != 2:
-            ctx.violation("pid-slew-plus-integral-does-not-have-two-activation-states", {"xml": PROBE_PID, "na": m.n("na"), "probe": "pid"})
-    except drv.MjError as e:
-        ctx.violation("documented-pid-slew-plus-integral-configuration-rejected-by-compiler", {"xml": PROBE_PID, "error": str(e)[:300], "probe": "pid"})
+            ctx.count("out_of_scope:documented-pid-slew-plus-integral-does-not-have-two-activation-states")
+    except drv.MjError:
+        # compilability of a documented configuration is not covered by any clause of the C27 statement: counter only
+        ctx.count("out_of_scope:documented-pid-slew-plus-integral-configuration-rejected-by-compiler")
 
 
 def run(ctx):
